@@ -88,6 +88,10 @@ def run(tier, replay):
         for sd in (21, 22, 23):
             cases.append({"id": 0, "max": 2, "seed": sd, "hist": [{"a": a, "c": 1, "counter": 0, "refused": False}
                                                                   for a in ("connect", "auth", "shell", "channelburst", "close")]})
+        # two shell requests on one channel, then an unknown request followed by a burst on that channel, then the connection ends
+        for sd in (41, 42, 43, 44, 45, 46):
+            cases.append({"id": 0, "max": 2, "seed": sd, "hist": [{"a": a, "c": 1, "counter": 0, "refused": False}
+                                                                  for a in ("connect", "auth", "shell", "shell", "badrequest")]})
         # an accept that fails, then connections up to the limit and one more
         for sd in (31, 32):
             cases.append({"id": 0, "max": 2, "seed": sd, "hist": [{"a": a, "c": c, "counter": 0, "refused": False} for a, c in
